@@ -6,7 +6,7 @@ import numpy as np
 
 from classy_blocks.base.element import ElementBase
 from classy_blocks.base.exceptions import FaceCreationError
-from classy_blocks.construct.edges import EdgeData, Line, Project
+from classy_blocks.construct.edges import EdgeData, Line, OnCurve, Project
 from classy_blocks.construct.point import Point
 from classy_blocks.types import NPPointListType, NPPointType, NPVectorType, PointListType, PointType, ProjectToType
 from classy_blocks.util import constants
@@ -115,8 +115,7 @@ class Face(ElementBase):
         self.edges = [self.edges[i] for i in (1, 2, 3, 0)]
 
         # edges now run from what used to be their end point
-        # (self.parts lists each edge object once)
-        for edge in self.parts[4:]:
+        for edge in self.unique_edges:
             edge.reverse()
 
         return self
@@ -151,14 +150,27 @@ class Face(ElementBase):
         return f.unit_vector(np.average(normals, axis=0))
 
     @property
-    def parts(self):
-        # an edge object that is used for several edges must only be transformed once
-        edges = []
+    def unique_edges(self) -> List[EdgeData]:
+        """Edge data objects of this face, each listed once
+        (the same object can be used for several edges)"""
+        edges: List[EdgeData] = []
         for edge in self.edges:
             if not any(edge is other for other in edges):
                 edges.append(edge)
 
-        return self.points + edges
+        return edges
+
+    @property
+    def parts(self):
+        # what is transformed with the face: its points and edge data, each object once;
+        # several edges can be snapped to one and the same curve, so it's the curve that counts
+        parts = list(self.points)
+        for edge in self.unique_edges:
+            part = edge.curve if isinstance(edge, OnCurve) else edge
+            if not any(part is other for other in parts):
+                parts.append(part)
+
+        return parts
 
     def project(self, label: str, edges: bool = False, points: bool = False) -> None:
         """Project this face to given geometry;
